@@ -61,6 +61,8 @@ def gen_grid(rng, n, kind="float", den=8, maxstep=4.0):
         for _ in range(n - 1):
             t.append(t[-1] + rng.choice([1, 60, 600, 1800, 3600, 3600, rng.randint(1, 7200)]))
         return [float(v) for v in t]
+    if rng.random() < 0.2:
+        den = 1          # whole numbers: coord_desc then stores the coordinate with an integer / float32 dtype
     g = [lat(rng, -50, 50, den)]
     uniform = rng.random() < 0.2
     h = lat(rng, 1.0 / den, maxstep, den)
@@ -193,7 +195,12 @@ def tgt(kind, values, scalar=False, as_dataarray=False):
 
 
 def coord_desc(kind, values):
-    return tgt(kind, values)
+    """a coordinate of the data set.  Whole-number grids (np.arange, depth levels in whole metres) are
+    stored with an integer or float32 dtype: the interpolant depends on the VALUES of the grid only."""
+    d = tgt(kind, values)
+    if kind == "float" and values and all(float(v).is_integer() and abs(v) < 2 ** 20 for v in values):
+        d["dtype"] = ["int64", "int32", "float32", "float64"][int(sum(values) + len(values)) % 4]
+    return d
 
 
 # ---------------------------------------------------------------------------------------------
